@@ -184,9 +184,12 @@ def module_facets(ir, m):
     byts, blocks, exprs = [], [], []
     for s in sorted(m.sections, key=lambda s: s.name):
         for bi in sorted(s.byte_intervals, key=lambda b: c.ids[id(b)]):
+            # (the image: uninitialised bytes read as zeros - a no-op
+            # rewrite by PassManager may spell some of them out, as C10
+            # allows)
             byts.append([s.name, sorted(str(f) for f in s.flags), bi.address,
-                         bi.size, bi.initialized_size,
-                         bytes(bi.contents).hex(), str(bi.uuid)])
+                         bi.size, bytes(bi.contents)[:bi.size].ljust(
+                             bi.size, b"\0").hex(), str(bi.uuid)])
             blocks += [[s.name, c.ids[id(bi)][2], b.offset, b.size,
                         type(b).__name__, str(getattr(b, "decode_mode", "")),
                         str(b.uuid)] for b in bi.blocks]
